@@ -1,4 +1,246 @@
+/-
+Helper lemmas for C19 (rotation / quaternion / Euler representations).
+
+Everything here is about *hand-written* reference definitions (`rotM`, `qM`, `Q`, `UQ`) and the `M3`
+algebra of `Proofs/Mat3.lean`; `Props/C19.lean` connects the generated traces to them by relation-free
+`ring` identities, so the hard-coded `linear_combination` certificates live here and do not depend on
+the shape of the generated code.  All certificates have integer coefficients (valid in every
+characteristic).
+-/
 import TrimeshVerif.Proofs.Mat3
 namespace TV.Mat3
+
+variable {K : Type} [Field K]
+
+/-! ### `M3` algebra -/
+
+theorem M3.mul_def (a b : M3 K) : a * b = M3.mul a b := rfl
+theorem M3.one_def : (1 : M3 K) = M3.one := rfl
+
+theorem M3.mul_assoc' (a b c : M3 K) : a * b * c = a * (b * c) := by
+  apply M3.ext' <;> simp only [M3.mul_def, M3.mul] <;> ring
+
+theorem M3.mul_one' (a : M3 K) : a * 1 = a := by
+  apply M3.ext' <;> simp [M3.mul_def, M3.mul, M3.one_def, M3.one]
+
+theorem M3.one_mul' (a : M3 K) : 1 * a = a := by
+  apply M3.ext' <;> simp [M3.mul_def, M3.mul, M3.one_def, M3.one]
+
+theorem M3.transpose_mul (a b : M3 K) : (a * b).transpose = b.transpose * a.transpose := by
+  apply M3.ext' <;> simp only [M3.mul_def, M3.mul, M3.transpose] <;> ring
+
+theorem M3.det_mul (a b : M3 K) : (a * b).det = a.det * b.det := by
+  simp only [M3.mul_def, M3.mul, M3.det]; ring
+
+theorem M3.det_one : (1 : M3 K).det = 1 := by
+  simp [M3.one_def, M3.one, M3.det]
+
+theorem M3.isRotation_one : (1 : M3 K).IsRotation := by
+  refine ⟨?_, M3.det_one⟩
+  apply M3.ext' <;> simp [M3.mul_def, M3.mul, M3.one_def, M3.one, M3.transpose]
+
+/-- products of proper rotations are proper rotations -/
+theorem M3.IsRotation.mul {a b : M3 K} (ha : a.IsRotation) (hb : b.IsRotation) : (a * b).IsRotation := by
+  obtain ⟨ha1, ha2⟩ := ha
+  obtain ⟨hb1, hb2⟩ := hb
+  constructor
+  · rw [M3.transpose_mul, M3.mul_assoc', ← M3.mul_assoc' b, hb1, M3.one_mul', ha1]
+  · rw [M3.det_mul, ha2, hb2, mul_one]
+
+/-! ### elementary rotations -/
+
+theorem Rx_isRotation (c s : K) (h : c ^ 2 + s ^ 2 = 1) : (Rx c s).IsRotation := by
+  constructor
+  · apply M3.ext' <;> simp [Rx, M3.mul_def, M3.mul, M3.one_def, M3.one, M3.transpose] <;>
+      first | ring1 | linear_combination h
+  · simp [Rx, M3.det]; linear_combination h
+
+theorem Ry_isRotation (c s : K) (h : c ^ 2 + s ^ 2 = 1) : (Ry c s).IsRotation := by
+  constructor
+  · apply M3.ext' <;> simp [Ry, M3.mul_def, M3.mul, M3.one_def, M3.one, M3.transpose] <;>
+      first | ring1 | linear_combination h
+  · simp [Ry, M3.det]; linear_combination h
+
+theorem Rz_isRotation (c s : K) (h : c ^ 2 + s ^ 2 = 1) : (Rz c s).IsRotation := by
+  constructor
+  · apply M3.ext' <;> simp [Rz, M3.mul_def, M3.mul, M3.one_def, M3.one, M3.transpose] <;>
+      first | ring1 | linear_combination h
+  · simp [Rz, M3.det]; linear_combination h
+
+/-! ### axis-angle (Rodrigues form) -/
+
+/-- `c·I + s·[u]ₓ + (1-c)·u uᵀ` -/
+def rotM (c s u1 u2 u3 : K) : M3 K :=
+  ⟨c + (1 - c) * u1 ^ 2, (1 - c) * u1 * u2 - s * u3, (1 - c) * u1 * u3 + s * u2,
+   (1 - c) * u1 * u2 + s * u3, c + (1 - c) * u2 ^ 2, (1 - c) * u2 * u3 - s * u1,
+   (1 - c) * u1 * u3 - s * u2, (1 - c) * u2 * u3 + s * u1, c + (1 - c) * u3 ^ 2⟩
+
+theorem rotM_isRotation (c s u1 u2 u3 : K) (hcs : c ^ 2 + s ^ 2 = 1)
+    (hu : u1 ^ 2 + u2 ^ 2 + u3 ^ 2 = 1) : (rotM c s u1 u2 u3).IsRotation := by
+  constructor
+  · apply M3.ext' <;> simp only [rotM, M3.mul_def, M3.mul, M3.one_def, M3.one, M3.transpose]
+    · linear_combination (u1^4 + u1^2*u2^2 + u1^2*u3^2 - 2*u1^2 + 1) * hcs + (-2*c*u1^2 - s^2*u1^2 + s^2 + 2*u1^2) * hu
+    · linear_combination (u1^3*u2 + u1*u2^3 + u1*u2*u3^2 - 2*u1*u2) * hcs + (-2*c*u1*u2 - s^2*u1*u2 + 2*u1*u2) * hu
+    · linear_combination (u1^3*u3 + u1*u2^2*u3 + u1*u3^3 - 2*u1*u3) * hcs + (-2*c*u1*u3 - s^2*u1*u3 + 2*u1*u3) * hu
+    · linear_combination (u1^3*u2 + u1*u2^3 + u1*u2*u3^2 - 2*u1*u2) * hcs + (-2*c*u1*u2 - s^2*u1*u2 + 2*u1*u2) * hu
+    · linear_combination (u1^2*u2^2 + u2^4 + u2^2*u3^2 - 2*u2^2 + 1) * hcs + (-2*c*u2^2 - s^2*u2^2 + s^2 + 2*u2^2) * hu
+    · linear_combination (u1^2*u2*u3 + u2^3*u3 + u2*u3^3 - 2*u2*u3) * hcs + (-2*c*u2*u3 - s^2*u2*u3 + 2*u2*u3) * hu
+    · linear_combination (u1^3*u3 + u1*u2^2*u3 + u1*u3^3 - 2*u1*u3) * hcs + (-2*c*u1*u3 - s^2*u1*u3 + 2*u1*u3) * hu
+    · linear_combination (u1^2*u2*u3 + u2^3*u3 + u2*u3^3 - 2*u2*u3) * hcs + (-2*c*u2*u3 - s^2*u2*u3 + 2*u2*u3) * hu
+    · linear_combination (u1^2*u3^2 + u2^2*u3^2 + u3^4 - 2*u3^2 + 1) * hcs + (-2*c*u3^2 - s^2*u3^2 + s^2 + 2*u3^2) * hu
+  · simp only [rotM, M3.det]
+    linear_combination (-c*u1^2 - c*u2^2 - c*u3^2 + c + u1^2 + u2^2 + u3^2) * hcs + (-c*s^2*u1^2 - c*s^2*u2^2 - c*s^2*u3^2 + c*s^2 - c + s^2*u1^2 + s^2*u2^2 + s^2*u3^2 + 1) * hu
+
+theorem rotM_apply_axis (c s u1 u2 u3 : K) (hu : u1 ^ 2 + u2 ^ 2 + u3 ^ 2 = 1) :
+    (rotM c s u1 u2 u3).apply (u1, u2, u3) = (u1, u2, u3) := by
+  simp only [rotM, M3.apply, Prod.mk.injEq]
+  refine ⟨?_, ?_, ?_⟩
+  · linear_combination (-c*u1 + u1) * hu
+  · linear_combination (-c*u2 + u2) * hu
+  · linear_combination (-c*u3 + u3) * hu
+
+/-! ### quaternions -/
+
+/-- matrix of the quaternion `(w, x, y, z)`; `t` is the squared normalisation factor `2 / |q|²` -/
+def qM (t w x y z : K) : M3 K :=
+  ⟨1 - t * (y ^ 2 + z ^ 2), t * (x * y - w * z), t * (x * z + w * y),
+   t * (x * y + w * z), 1 - t * (x ^ 2 + z ^ 2), t * (y * z - w * x),
+   t * (x * z - w * y), t * (y * z + w * x), 1 - t * (x ^ 2 + y ^ 2)⟩
+
+theorem qM_isRotation (t w x y z : K) (ht : t * (w ^ 2 + x ^ 2 + y ^ 2 + z ^ 2) = 2) :
+    (qM t w x y z).IsRotation := by
+  constructor
+  · apply M3.ext' <;> simp only [qM, M3.mul_def, M3.mul, M3.one_def, M3.one, M3.transpose]
+    · linear_combination (t*y^2 + t*z^2) * ht
+    · linear_combination (-t*x*y) * ht
+    · linear_combination (-t*x*z) * ht
+    · linear_combination (-t*x*y) * ht
+    · linear_combination (t*x^2 + t*z^2) * ht
+    · linear_combination (-t*y*z) * ht
+    · linear_combination (-t*x*z) * ht
+    · linear_combination (-t*y*z) * ht
+    · linear_combination (t*x^2 + t*y^2) * ht
+  · simp only [qM, M3.det]
+    linear_combination (t*x^2 + t*y^2 + t*z^2) * ht
+
+theorem qM_neg (t w x y z : K) : qM t (-w) (-x) (-y) (-z) = qM t w x y z := by
+  apply M3.ext' <;> simp only [qM] <;> ring
+
+/-- the half-angle quaternion of an axis-angle pair -/
+theorem qM_axis_angle (ch sh u1 u2 u3 : K) (hcs : ch ^ 2 + sh ^ 2 = 1)
+    (hu : u1 ^ 2 + u2 ^ 2 + u3 ^ 2 = 1) :
+    qM 2 ch (u1 * sh) (u2 * sh) (u3 * sh) = rotM (ch ^ 2 - sh ^ 2) (2 * sh * ch) u1 u2 u3 := by
+  apply M3.ext' <;> simp only [qM, rotM]
+  · linear_combination (u1^2 - 1) * hcs + (-2*sh^2) * hu
+  · linear_combination (u1*u2) * hcs
+  · linear_combination (u1*u3) * hcs
+  · linear_combination (u1*u2) * hcs
+  · linear_combination (u2^2 - 1) * hcs + (-2*sh^2) * hu
+  · linear_combination (u2*u3) * hcs
+  · linear_combination (u1*u3) * hcs
+  · linear_combination (u2*u3) * hcs
+  · linear_combination (u3^2 - 1) * hcs + (-2*sh^2) * hu
+
+/-- quaternions as plain 4-tuples -/
+structure Q (K : Type) where
+  w : K
+  x : K
+  y : K
+  z : K
+
+/-- Hamilton product -/
+def Q.mul (p q : Q K) : Q K :=
+  ⟨p.w * q.w - p.x * q.x - p.y * q.y - p.z * q.z,
+   p.w * q.x + p.x * q.w + p.y * q.z - p.z * q.y,
+   p.w * q.y - p.x * q.z + p.y * q.w + p.z * q.x,
+   p.w * q.z + p.x * q.y - p.y * q.x + p.z * q.w⟩
+
+def Q.normSq (q : Q K) : K := q.w ^ 2 + q.x ^ 2 + q.y ^ 2 + q.z ^ 2
+
+/-- rotation matrix of a *unit* quaternion -/
+def Q.rot (q : Q K) : M3 K := qM 2 q.w q.x q.y q.z
+
+theorem Q.normSq_mul (p q : Q K) : (p.mul q).normSq = p.normSq * q.normSq := by
+  simp only [Q.mul, Q.normSq]; ring
+
+/-- division-free multiplicativity (unit quaternions; holds in every characteristic) -/
+theorem Q.rot_mul (p q : Q K) (hp : p.normSq = 1) (hq : q.normSq = 1) :
+    (p.mul q).rot = p.rot * q.rot := by
+  obtain ⟨pw, px, py, pz⟩ := p
+  obtain ⟨qw, qx, qy, qz⟩ := q
+  simp only [Q.normSq] at hp hq
+  apply M3.ext' <;> simp only [Q.rot, Q.mul, qM, M3.mul_def, M3.mul]
+  · linear_combination (-2*qy^2 - 2*qz^2) * hp + (-2*py^2 - 2*pz^2) * hq
+  · linear_combination (-2*qw*qz + 2*qx*qy) * hp + (-2*pw*pz + 2*px*py) * hq
+  · linear_combination (2*qw*qy + 2*qx*qz) * hp + (2*pw*py + 2*px*pz) * hq
+  · linear_combination (2*qw*qz + 2*qx*qy) * hp + (2*pw*pz + 2*px*py) * hq
+  · linear_combination (-2*qx^2 - 2*qz^2) * hp + (-2*px^2 - 2*pz^2) * hq
+  · linear_combination (-2*qw*qx + 2*qy*qz) * hp + (-2*pw*px + 2*py*pz) * hq
+  · linear_combination (-2*qw*qy + 2*qx*qz) * hp + (-2*pw*py + 2*px*pz) * hq
+  · linear_combination (2*qw*qx + 2*qy*qz) * hp + (2*pw*px + 2*py*pz) * hq
+  · linear_combination (-2*qx^2 - 2*qy^2) * hp + (-2*px^2 - 2*py^2) * hq
+
+/-- multiplicativity for arbitrary non-zero quaternions.  NOTE the hypothesis `2 ≠ 0`: in
+    characteristic 2 the relation `t * |q|² = 2` degenerates to `t * |q|² = 0` and the statement is
+    false (see the report on `C19_quaternion_multiply`). -/
+theorem qM_mul (h2 : (2 : K) ≠ 0) (t1 w1 x1 y1 z1 t0 w0 x0 y0 z0 : K)
+    (h1 : t1 * (w1 ^ 2 + x1 ^ 2 + y1 ^ 2 + z1 ^ 2) = 2) (h0 : t0 * (w0 ^ 2 + x0 ^ 2 + y0 ^ 2 + z0 ^ 2) = 2) :
+    qM (t1 * t0 / 2) (Q.mul ⟨w1, x1, y1, z1⟩ ⟨w0, x0, y0, z0⟩).w (Q.mul ⟨w1, x1, y1, z1⟩ ⟨w0, x0, y0, z0⟩).x
+        (Q.mul ⟨w1, x1, y1, z1⟩ ⟨w0, x0, y0, z0⟩).y (Q.mul ⟨w1, x1, y1, z1⟩ ⟨w0, x0, y0, z0⟩).z
+      = qM t1 w1 x1 y1 z1 * qM t0 w0 x0 y0 z0 := by
+  have ht : 2 * (t1 * t0 / 2) = t1 * t0 := by field_simp
+  generalize t1 * t0 / 2 = t at ht
+  apply M3.ext' <;> simp only [Q.mul, qM, M3.mul_def, M3.mul] <;> apply mul_left_cancel₀ h2
+  · linear_combination (-((w1*y0 - x1*z0 + y1*w0 + z1*x0)^2 + (w1*z0 + x1*y0 - y1*x0 + z1*w0)^2)) * ht + (-y0^2*t0 - z0^2*t0) * h1 + (-y1^2*t1 - z1^2*t1) * h0
+  · linear_combination ((w1*x0 + x1*w0 + y1*z0 - z1*y0) * (w1*y0 - x1*z0 + y1*w0 + z1*x0) - (w1*w0 - x1*x0 - y1*y0 - z1*z0) * (w1*z0 + x1*y0 - y1*x0 + z1*w0)) * ht + (-w0*z0*t0 + x0*y0*t0) * h1 + (-w1*z1*t1 + x1*y1*t1) * h0
+  · linear_combination ((w1*x0 + x1*w0 + y1*z0 - z1*y0) * (w1*z0 + x1*y0 - y1*x0 + z1*w0) + (w1*w0 - x1*x0 - y1*y0 - z1*z0) * (w1*y0 - x1*z0 + y1*w0 + z1*x0)) * ht + (w0*y0*t0 + x0*z0*t0) * h1 + (w1*y1*t1 + x1*z1*t1) * h0
+  · linear_combination ((w1*x0 + x1*w0 + y1*z0 - z1*y0) * (w1*y0 - x1*z0 + y1*w0 + z1*x0) + (w1*w0 - x1*x0 - y1*y0 - z1*z0) * (w1*z0 + x1*y0 - y1*x0 + z1*w0)) * ht + (w0*z0*t0 + x0*y0*t0) * h1 + (w1*z1*t1 + x1*y1*t1) * h0
+  · linear_combination (-((w1*x0 + x1*w0 + y1*z0 - z1*y0)^2 + (w1*z0 + x1*y0 - y1*x0 + z1*w0)^2)) * ht + (-x0^2*t0 - z0^2*t0) * h1 + (-x1^2*t1 - z1^2*t1) * h0
+  · linear_combination ((w1*y0 - x1*z0 + y1*w0 + z1*x0) * (w1*z0 + x1*y0 - y1*x0 + z1*w0) - (w1*w0 - x1*x0 - y1*y0 - z1*z0) * (w1*x0 + x1*w0 + y1*z0 - z1*y0)) * ht + (-w0*x0*t0 + y0*z0*t0) * h1 + (-w1*x1*t1 + y1*z1*t1) * h0
+  · linear_combination ((w1*x0 + x1*w0 + y1*z0 - z1*y0) * (w1*z0 + x1*y0 - y1*x0 + z1*w0) - (w1*w0 - x1*x0 - y1*y0 - z1*z0) * (w1*y0 - x1*z0 + y1*w0 + z1*x0)) * ht + (-w0*y0*t0 + x0*z0*t0) * h1 + (-w1*y1*t1 + x1*z1*t1) * h0
+  · linear_combination ((w1*y0 - x1*z0 + y1*w0 + z1*x0) * (w1*z0 + x1*y0 - y1*x0 + z1*w0) + (w1*w0 - x1*x0 - y1*y0 - z1*z0) * (w1*x0 + x1*w0 + y1*z0 - z1*y0)) * ht + (w0*x0*t0 + y0*z0*t0) * h1 + (w1*x1*t1 + y1*z1*t1) * h0
+  · linear_combination (-((w1*x0 + x1*w0 + y1*z0 - z1*y0)^2 + (w1*y0 - x1*z0 + y1*w0 + z1*x0)^2)) * ht + (-x0^2*t0 - y0^2*t0) * h1 + (-x1^2*t1 - y1^2*t1) * h0
+
+/-! ### unit quaternions as a subtype: unconditional multiplicativity -/
+
+/-- unit quaternions -/
+def UQ (K : Type) [Field K] := {q : Q K // q.normSq = 1}
+
+instance : Mul (UQ K) := ⟨fun p q => ⟨p.1.mul q.1, by rw [Q.normSq_mul, p.2, q.2, mul_one]⟩⟩
+
+def UQ.rot (q : UQ K) : M3 K := q.1.rot
+
+theorem UQ.mul_val (p q : UQ K) : (p * q).1 = p.1.mul q.1 := rfl
+
+theorem UQ.rot_mul (p q : UQ K) : (p * q).rot = p.rot * q.rot := Q.rot_mul p.1 q.1 p.2 q.2
+
+theorem UQ.rot_isRotation (q : UQ K) : q.rot.IsRotation := by
+  have h := q.2
+  simp only [Q.normSq] at h
+  exact qM_isRotation 2 _ _ _ _ (by linear_combination 2 * h)
+
+/-- elementary half-angle quaternions about the coordinate axes -/
+def UQ.ex (ch sh : K) (h : ch ^ 2 + sh ^ 2 = 1) : UQ K :=
+  ⟨⟨ch, sh, 0, 0⟩, by simp only [Q.normSq]; linear_combination h⟩
+def UQ.ey (ch sh : K) (h : ch ^ 2 + sh ^ 2 = 1) : UQ K :=
+  ⟨⟨ch, 0, sh, 0⟩, by simp only [Q.normSq]; linear_combination h⟩
+def UQ.ez (ch sh : K) (h : ch ^ 2 + sh ^ 2 = 1) : UQ K :=
+  ⟨⟨ch, 0, 0, sh⟩, by simp only [Q.normSq]; linear_combination h⟩
+
+theorem UQ.ex_val (ch sh : K) (h : ch ^ 2 + sh ^ 2 = 1) : (UQ.ex ch sh h).1 = ⟨ch, sh, 0, 0⟩ := rfl
+theorem UQ.ey_val (ch sh : K) (h : ch ^ 2 + sh ^ 2 = 1) : (UQ.ey ch sh h).1 = ⟨ch, 0, sh, 0⟩ := rfl
+theorem UQ.ez_val (ch sh : K) (h : ch ^ 2 + sh ^ 2 = 1) : (UQ.ez ch sh h).1 = ⟨ch, 0, 0, sh⟩ := rfl
+
+theorem UQ.rot_ex {ch sh : K} (h : ch ^ 2 + sh ^ 2 = 1) :
+    (UQ.ex ch sh h).rot = Rx (ch ^ 2 - sh ^ 2) (2 * sh * ch) := by
+  apply M3.ext' <;> simp only [UQ.rot, UQ.ex, Q.rot, qM, Rx] <;> first | ring1 | linear_combination (-1 : K) * h
+
+theorem UQ.rot_ey {ch sh : K} (h : ch ^ 2 + sh ^ 2 = 1) :
+    (UQ.ey ch sh h).rot = Ry (ch ^ 2 - sh ^ 2) (2 * sh * ch) := by
+  apply M3.ext' <;> simp only [UQ.rot, UQ.ey, Q.rot, qM, Ry] <;> first | ring1 | linear_combination (-1 : K) * h
+
+theorem UQ.rot_ez {ch sh : K} (h : ch ^ 2 + sh ^ 2 = 1) :
+    (UQ.ez ch sh h).rot = Rz (ch ^ 2 - sh ^ 2) (2 * sh * ch) := by
+  apply M3.ext' <;> simp only [UQ.rot, UQ.ez, Q.rot, qM, Rz] <;> first | ring1 | linear_combination (-1 : K) * h
 
 end TV.Mat3
